@@ -197,3 +197,30 @@ fn k_aliases() {
     let cfg = MuxerConfig::new(w, h, fr).with_audio(AudioCodec::None, sr, ch);
     assert!(cfg.audio.is_none());
 }
+
+/// C17 (complete over all u32 sample rates and u16 channel counts): building with audio codec `None` registers no audio track - neither at
+/// the API level nor with the container writer (the same as never calling audio()); building with a real codec registers exactly it.
+#[kani::proof]
+#[kani::unwind(4)]
+fn k_build_audio_none() {
+    let (sr, ch): (u32, u16) = (kani::any(), kani::any());
+    let a = muxer_with_audio(AudioCodec::None, sr, ch);
+    assert!(a.audio_track.is_none());
+    assert!(crate::muxer::mp4::verif_kani::peek_audio_cfg(&a.writer).is_none());
+    core::mem::forget(a);
+}
+#[kani::proof]
+#[kani::unwind(4)]
+fn k_build_audio_opus() {
+    let (sr, ch): (u32, u16) = (kani::any(), kani::any());
+    let c = muxer_with_audio(AudioCodec::Opus, sr, ch);
+    assert!(crate::muxer::mp4::verif_kani::peek_audio_cfg(&c.writer) == Some((sr, ch, true)));
+    assert!(c.audio_track.as_ref().unwrap().sample_rate == sr && c.audio_track.as_ref().unwrap().channels == ch);
+    core::mem::forget(c);
+}
+fn muxer_with_audio(codec: AudioCodec, sr: u32, ch: u16) -> Muxer<Vec<u8>> {
+    match MuxerBuilder::new(Vec::new()).video(VideoCodec::Vp9, 16, 16, 30.0).audio(codec, sr, ch).build() {
+        Ok(m) => m,
+        Err(e) => { core::mem::forget(e); kani::assume(false); unreachable!() }
+    }
+}
